@@ -30,6 +30,14 @@ fn ident_name(v: &Value) -> Option<&str> {
     }
 }
 
+/// look through redundant parentheses
+fn unparen(mut v: &Value) -> &Value {
+    while ty(v) == "ParenthesisExpression" {
+        v = &v["expression"];
+    }
+    v
+}
+
 /// An output item that the transform is allowed to add to a statement list.
 fn allowed_generated(item: &Value) -> bool {
     match ty(item) {
@@ -127,9 +135,9 @@ impl Cmp {
                 // resolveType: calls of `defineComponent` may gain / wrap their second argument
                 if self.resolve_type
                     && it == "CallExpression"
-                    && ident_name(&inp["callee"]) == Some("defineComponent")
+                    && ident_name(unparen(&inp["callee"])) == Some("defineComponent")
                     && self.dc_ctxt.is_some()
-                    && inp["callee"]["ctxt"].as_u64() == self.dc_ctxt
+                    && unparen(&inp["callee"])["ctxt"].as_u64() == self.dc_ctxt
                 {
                     return self.embed_define_component(inp, out, path);
                 }
